@@ -30,10 +30,14 @@ CLAIMS = {
 }
 
 CLAIMS.update({
+    "C03": ("differential re-execution: the history is run again with every step outside the observed session removed and the members' streams are compared message by message (session ids/uuids normalised; participant, entity, type and asset ids must coincide unnormalised); plus the per-session reference model in the first execution",
+            "Histories over 2-3 sessions with connections that never join, that switch, that name ids valid only elsewhere, and session ids reused after a session ended; sequential policy so that both executions are functions of the history.", "§7 C03"),
     "C07": ("registry beliefs (every successful join resolves under the returned id/uuid and lists the participant), model of session lifetime, session_count gauge delta, live frame-worker tasks = live sessions, permutation search over concurrent joins/departures",
             "Create/join/switch/leave cycles over <= 3 symbolic sessions with id reuse, plus concurrent blocks (join of an existing session against the last departure, two last departures, two creations, departure against creation) under random-walk and PCT schedules.", "§7 C07"),
     "C08": ("after every offence: no panic in any task, the offender is either still served (ping answered) or ended through the normal path exactly once (handler returned, HandleDisconnect once, not a member any more, no non-persistent entity left, gauge restored), both witnesses still served; slow readers that resume receive everything exactly once in order; silent clients are disconnected at the idle timeout, keep-alive clients are not",
             "Offences sampled per run: descriptor-driven structurally valid messages of all four packages with absent sub-messages and boundary floats, raw garbage, unmasked/text/fragmented/oversized/control frames, bursts of 1-600 failing requests, closes mid-frame (FIN/RST), read stalls with up to 1500 relayed and 600 own messages outstanding followed by resume/FIN/RST, silence and keep-alive across the idle timeout on the simulated clock; under random-walk/PCT schedules with fixed or random select preference. All byte sequences are sampled, not enumerated.", "§7 C08"),
+    "C17": ("differential re-execution: stream under flag set F = flag-free stream filtered by F, exactly, per connection; same final server state; reference model filtered by F in the first execution (same answers, same state)",
+            "Histories executed under a flag set and again without flags; quick covers the empty set, all ten, the ten singletons and pseudo-random subsets plus unknown names; thorough walks through all 1024 subsets.", "§7 C17"),
     "C09": ("deadlock states (a task waiting for a lock at quiescence), every request of a block answered exactly once, answers admissible under some order, server returns to its initial state after all clients close",
             "2-16 connections in shared sessions with all modules and the production decorators; concurrent blocks of 2-3 requests (serializability search) and one block of 5-16 simultaneous requests (liveness) per run, under random-walk/PCT schedules with injected task stalls.", "§7 C09"),
     "C10": ("history invariants over every id the server hands out (fresh session id among live sessions, participant/entity ids never reissued per session UUID, type ids <-> names bijective, asset ids unique) and a generator micro-world (no id outstanding twice)",
